@@ -489,8 +489,12 @@ func (a *analysis) names(np NamePair, mstruct *types.Struct, iface *types.Interf
 		for q := range quals {
 			universe[q] = true
 		}
+		// predeclared type names count as collisions (a rename that avoids shadowing bool, string, error, any ... is
+		// forced); predeclared functions and constants only when the declaration mentions them (found above)
 		for _, n := range types.Universe.Names() {
-			universe[n] = true
+			if _, isType := types.Universe.Lookup(n).(*types.TypeName); isType {
+				universe[n] = true
+			}
 		}
 		// type names that are visible unqualified in the destination (in place: every package-level type)
 		wanted := make([]string, len(pnames))
